@@ -46,8 +46,8 @@ def all_cases(max_order, max_dim, max_thr):
 def random_cases(rng, n, max_numel=6000):
     out = []
     while len(out) < n:
-        o = rng.choice([0, 1, 1, 2, 2, 2, 3, 3, 4])
-        shape = [rng.choice([1, 1, 2, 3, 4, 5, 7, 8, 13, 16, 31, 48]) for _ in range(o)]
+        o = rng.choice([0, 1, 1, 2, 2, 2, 3, 3, 4, 5, 6])
+        shape = [rng.choice([1, 1, 2, 3, 4, 5, 7, 8, 13, 16, 31, 48] if o <= 4 else [1, 1, 2, 2, 3, 4, 5]) for _ in range(o)]
         numel = 1
         for d in shape:
             numel *= d
@@ -102,6 +102,46 @@ def compare_case(ctx, case, exp):
     return not problems
 
 
+def optimizer_level(ctx, rng, n):
+    """The same shape in two parameter groups with different max_preconditioner_dim / merging (and more than one parameter per
+    group): every group's blocks are the ones the spec gives for THAT group's settings."""
+    import torch
+    from distributed_shampoo.distributed_shampoo import DistributedShampoo
+    from distributed_shampoo.shampoo_types import DISTRIBUTOR
+    built, all_cases = [], []
+    for _ in range(n):
+        shape = [rng.choice([2, 3, 4, 5, 7, 9]) for _ in range(rng.choice([1, 2, 2, 3]))]
+        other = [rng.choice([2, 3, 6]) for _ in range(rng.choice([1, 2]))]
+        cfgs = [(rng.choice([1, 2, 3, 4, 8, 1024]), rng.random() < 0.5) for _ in range(2)]
+        numel = lambda sh: int(__import__("math").prod(sh))
+        groups, per_group = [], []
+        for thr, merge in cfgs:
+            ps = [torch.nn.Parameter(torch.arange(numel(sh), dtype=torch.float64).view(tuple(sh)).clone()) for sh in (shape, other, shape)]
+            groups.append({"params": ps, "max_preconditioner_dim": thr, "use_merge_dims": merge})
+            per_group.append([(sh, thr, merge) for sh in (shape, other, shape)])
+        opt = DistributedShampoo(groups, lr=0.01, max_preconditioner_dim=cfgs[0][0], use_merge_dims=cfgs[0][1])
+        built.append((opt, per_group, cfgs, shape, other))
+        all_cases += [{"shape": list(sh), "thr": thr, "merge": merge} for grp in per_group for sh, thr, merge in grp]
+    exp = oracle_eval(all_cases)
+    k = 0
+    for opt, per_group, cfgs, shape, other in built:
+        for gi, grp in enumerate(per_group):
+            d = opt._per_group_state_lists[gi][DISTRIBUTOR]
+            got = [[int(v) for v in b.reshape(-1).tolist()] for b in d.local_blocked_params]
+            got_shapes = [[int(x) for x in b.shape] for b in d.local_blocked_params]
+            want, want_shapes = [], []
+            for _ in grp:
+                want += [list(x) if x else [] for x in exp[k]["idx"]]
+                want_shapes += [list(x) if x else [] for x in exp[k]["shapes"]]
+                k += 1
+            ctx.add("evaluations")
+            if got != want or got_shapes != want_shapes:
+                ctx.violation(f"blocks of parameter group {gi} (settings {cfgs[gi]}) of an optimizer whose groups {cfgs} hold the same shapes "
+                              f"{[shape, other, shape]} differ from the Blocking spec: expected shapes {want_shapes[:6]}, observed {got_shapes[:6]}",
+                              {"kind": "blocking_oracle", "clause": "optimizer_level"}, {"groups": cfgs, "shapes": [shape, other, shape]})
+    ctx.put("optimizer_level_cases", n)
+
+
 def oracle_eval(cases, chunk=400):
     chunks = [cases[i:i + chunk] for i in range(0, len(cases), chunk)]
     with ThreadPoolExecutor(max_workers=12) as ex:
@@ -150,11 +190,14 @@ def run(ctx):
     ctx.sample({"case": cases[len(cases) // 2], "expected_blocks": exp[len(cases) // 2]["shapes"][:6]})
     ctx.sample({"case": cases[-1], "expected_merged": exp[-1]["merged"], "n_blocks": len(exp[-1]["shapes"])})
     ctx.assume("TLC's evaluation of the Blocking operators (tla2tools 1.8.0) and the JSON bridge are trusted")
+    optimizer_level(ctx, rng, 40 if quick else 400)
     from harness.drivers import invariance
     invariance.run_blocking_invariance(ctx)
 
 
 def replay(ctx, data):
+    if "case" not in data["replay"]:
+        return optimizer_level(ctx, random.Random(ctx.seed), 400)
     case = data["replay"]["case"]
     exp = oracle_eval([{k: case[k] for k in ("shape", "thr", "merge")}])
     compare_case(ctx, case, exp[0])
